@@ -481,14 +481,17 @@ class Defs(object):
                 if l.get('k') == 'var':
                     self.defs_at.setdefault(s, []).append((l['v'], s, None))
             elif k in ('call', 'ctor'):
-                for a in list(n.get('a', [])) + ([n['obj']] if n.get('obj', -1) >= 0 else []):
+                d = fn.callee(s)
+                mut = (d or {}).get('mut')
+                args = list(n.get('a', []))
+                # operator calls written as member calls carry the object separately: parameters index the explicit arguments
+                for idx, a in enumerate(args):
                     an = fn.n(a)
+                    can_modify = True if mut is None or idx >= len(mut) else bool(mut[idx])
+                    if not can_modify:
+                        continue
                     if an.get('k') == 'var' and 'fn' not in an:
-                        # by-reference use of a variable; a const& cannot be told apart here, so it counts as a def
-                        if n.get('obj', -1) == a:
-                            d = fn.callee(s)
-                            # member call on a local object: only a def for scalar purposes if non-const; keep it simple
-                            continue
+                        # the variable is bound to a non-const reference parameter: the call may redefine it
                         self.defs_at.setdefault(s, []).append((an['v'], s, None))
                     elif an.get('k') == 'unop' and an['op'] == '&' and fn.n(an['sub']).get('k') == 'var':
                         self.defs_at.setdefault(s, []).append((fn.n(an['sub'])['v'], s, None))
@@ -627,3 +630,35 @@ def full_fence_pred(facts):
     def elem(fn, pos, e):
         return summ.elem_must(fn, pos, e, 'fullfence', pred)
     return elem
+
+
+# ---------------------------------------------------------------------------------------------
+# assignments and value identity (class-typed values use operator= / copy constructors)
+# ---------------------------------------------------------------------------------------------
+def assignments(fn, reachable_only=True):
+    """[(pos, node id, lhs node, rhs node)] for built-in `=` and for overloaded operator= calls"""
+    out = []
+    for pos, s, n in fn.stmt_elems(('binop', 'call'), reachable_only):
+        if n.get('k') == 'binop' and n['op'] == '=':
+            out.append((pos, s, n['l'], n['r']))
+        elif n.get('k') == 'call' and n.get('op') == '=' and n.get('obj', -1) >= 0 and n.get('a'):
+            if atomic_op(fn, s):
+                continue
+            out.append((pos, s, n['obj'], n['a'][0]))
+    return out
+
+
+def value_root(fn, s):
+    """look through reads, casts, copy/move constructions and std::move/std::forward"""
+    for _ in range(10):
+        s = fn.strip(s)
+        n = fn.n(s)
+        k = n.get('k')
+        if k == 'ctor' and len(n.get('a', [])) == 1:
+            s = n['a'][0]
+            continue
+        if k == 'call' and (fn.callee(s) or {}).get('p') in ('std::move', 'std::forward') and n.get('a'):
+            s = n['a'][0]
+            continue
+        break
+    return s
